@@ -62,6 +62,7 @@ func genC05(t *rapid.T) *LCase {
 		}
 	}
 	c.Calls = append(c.Calls, Call{K: "close", N: rapid.IntRange(1, 3).Draw(t, "nclose-final")})
+	genOverflow(t, c)
 	return c
 }
 
@@ -86,10 +87,16 @@ func runC05(c *LCase) (viol string, nontrivial bool) {
 	for _, s := range c.Reach {
 		w.FsOp(s)
 	}
+	if c.Overflow > 0 {
+		overflowBurst("d0", c.Overflow)
+	}
 	pending, _ := engine.Fionread(w.Wfd)
 	nontrivial = pending > 0 || c.Plug
 	cons := startConsumer(w.W, c.Consumer, c.StopAfter)
 	defer cons.halt()
+	if c.Overflow > 0 && (c.Consumer == "events" || c.Consumer == "stop") {
+		waitParkedInSendError()
+	}
 	for i, call := range c.Calls {
 		call := call
 		n := 1
